@@ -140,7 +140,8 @@ SumOf(body, idx, env) == FoldSet(LAMBDA m, acc : VAdd(acc, BodyAt(body, m, env))
          userfuncs (names of author-defined functions), forbidden (functions a submission may not use: a blacklist, or
          the complement of a whitelist), required (functions a correct submission must use), listing (how forbidden is
          configured, "black" | "white") and debug (the grader's debug switch): the last two have no influence on the
-         class of the outcome]
+         class of the outcome; removed (default constants the author deleted: they mean nothing any more),
+         userconsts (constants the author defined, new names or default names given another value)]
    role "author" | "student": the instructor-only variables exist for the author only *)
 HasInexact(sum) == sum.lower.k \in InexactKinds \/ sum.upper.k \in InexactKinds
 HasComplexReal(sum) == sum.lower.k = "creal" \/ sum.upper.k = "creal"
@@ -155,11 +156,19 @@ Restricted(stu, cfg) == UsedFuncs(stu) \cap (cfg.forbidden \ cfg.userfuncs) # {}
 CutFor(sum, cfg) == IF UsesFact(sum.body) THEN cfg.cutFact ELSE cfg.cut
 IfSet(cond, name) == IF cond THEN {name} ELSE {}
 
+\* the names that already mean something in the problem: the constants in force (defaults not removed, the author's own),
+\* the functions (built in and author-defined), the sampled variables.  A removed default constant is a free name.
+ConstantsInForce(cfg) == (KnownConstants \ cfg.removed) \cup cfg.userconsts
+Meaningful(cfg) == ConstantsInForce(cfg) \cup KnownFunctions \cup cfg.userfuncs \cup cfg.vars
+\* the text of the summation writes the imaginary unit (complex coefficient, complex or complex-typed limit)
+AnyComplexCoef(ts) == ts # {} /\ \E t \in ts : t.coef[2] # Zero
+MentionsImag(sum) == sum.lower.k \in {"cplx", "creal"} \/ sum.upper.k \in {"cplx", "creal"}
+                     \/ (~sum.body.blank /\ (AnyComplexCoef(Terms(sum.body)) \/ sum.body.add[2] # Zero))
 Faults(sum, cfg, env, role, strict) ==
   LET lo == LimVal(sum.lower, env, role)
       hi == LimVal(sum.upper, env, role)
       b == sum.body
-      meaning == KnownConstants \cup KnownFunctions \cup cfg.userfuncs \cup cfg.vars \cup (IF role = "author" THEN cfg.ivars ELSE {})
+      meaning == Meaningful(cfg) \cup (IF role = "author" THEN cfg.ivars ELSE {})
   IN IfSet(lo.t = "blank" \/ hi.t = "blank" \/ b.blank \/ sum.var = "", "blank")
      \cup IfSet(sum.var \in meaning, "variable_has_meaning")
      \cup IfSet(lo.t = "nonint" \/ hi.t = "nonint" \/ (strict /\ HasInexact(sum)), "noninteger_limit")
@@ -177,10 +186,12 @@ Unspecified(sum, cfg, env, role) ==
       b == sum.body
       cut == CutFor(sum, cfg)
   IN \/ role = "student" /\ sum.var \in cfg.ivars
+     \* the imaginary unit written in a problem whose author removed it
+     \/ cfg.removed \cap {"i", "j"} # {} /\ MentionsImag(sum)
      \/ lo.t \in {"pinf", "ninf"} /\ hi.t = lo.t
      \/ lo.t = "int" /\ hi.t \in {"pinf", "ninf"} /\ Abs(lo.v) > cut
      \/ hi.t = "int" /\ lo.t \in {"pinf", "ninf"} /\ Abs(hi.v) > cut
-     \/ ~b.blank /\ UsesIndex(b) /\ b.v # sum.var /\ b.v \in KnownConstants \cup KnownFunctions \cup cfg.userfuncs \cup cfg.vars \cup cfg.ivars
+     \/ ~b.blank /\ UsesIndex(b) /\ b.v # sum.var /\ b.v \in Meaningful(cfg) \cup cfg.ivars
      \* a summand that is never evaluated: nothing is said about names it cannot use
      \/ ~b.blank /\ IsRange(lo) /\ IsRange(hi) /\ Index(lo, hi, cfg.evenOdd, cut) = {}
           /\ ((UsesIndex(b) /\ b.v # sum.var) \/ (role = "student" /\ UsesC(b)) \/ ~(SeqSet(b.calls) \subseteq DefinedFuncs(cfg)))
